@@ -20,6 +20,15 @@ Per generated case
                  (nodes with all attributes except the track/lineage ids SolutionTracks adds,
                  sorted edges, or the error kind derived from the ValueError text).
 
+A share of the well-formed sources carries `track_id` / `lineage_id` columns (also renamed) with
+VALID, NON-CANONICAL ids (track id constant exactly on each maximal unbranched segment, lineage id
+constant exactly on each weakly connected component, distinct across them, random non-contiguous
+values, forests with divisions and skip edges); they are mapped properties like any other and must
+arrive unchanged (`C12|<kind>|mapped-lineage-id-differs`, `…|mapped-track-id-differs`).  The model
+carries them as ordinary columns; the validity check of the real code (geff.validate) is opaque,
+so only valid ids are generated and sources whose ids are invalid by the harness's own reading
+(possible while shrinking) are outside the claim and the model's input language.
+
 "No parent" is -1, an empty string, "-1" or a missing value (NaN/None/NA); ids never take these
 values (documented sentinel).  Cells are homogeneous per column (numpy coerces mixed columns);
 missing values only in float columns (a missing cell of a `str` column arrives as the string
@@ -416,7 +425,8 @@ def classify(case, src) -> dict:
             elif v in cl:
                 a[k] = cl[v]
         attrs[nid] = a
-    return {"expect": "import", "nodes": nodes, "edges": edges, "attrs": attrs}
+    return {"expect": "import", "nodes": nodes, "edges": edges, "attrs": attrs,
+            "ids_valid": ids_valid(nodes, edges, attrs)}
 
 
 def _idkind(src) -> str:
@@ -488,14 +498,21 @@ def oracle(case, real) -> list[tuple[str, str]]:
     for nid in exp["nodes"]:
         got = real["nodes"][nid]
         for k, ev in exp["attrs"][nid].items():
+            special = {"track_id": "mapped-track-id", "lineage_id": "mapped-lineage-id"}.get(k)
+            if special and not exp["ids_valid"]:
+                continue  # invalid ids are documented to be dropped and recomputed: no claim
             if k not in got:
                 if ev == ("s", "na"):
                     continue
-                out.append((f"C12|{kind}|attr-missing", f"node {nid} has no attribute '{k}' (source {ev})"))
+                out.append((f"C12|{kind}|{special}-missing" if special else f"C12|{kind}|attr-missing",
+                            f"node {nid} has no attribute '{k}' (source {ev})"))
                 return out
             gv = val_of(got[k])
             if gv != ev:
-                out.append((f"C12|{kind}|attr-differs", f"node {nid} attribute '{k}': {gv} expected {ev}"))
+                out.append((f"C12|{kind}|{special}-differs" if special else f"C12|{kind}|attr-differs",
+                            f"node {nid} attribute '{k}': {gv} expected {ev} (source column "
+                            f"'{case['nm'][k]}' holds valid ids)" if special else
+                            f"node {nid} attribute '{k}': {gv} expected {ev}"))
                 return out
     return out
 
@@ -523,6 +540,12 @@ def model_line(case, src, mode: str = "fixed") -> str | None:
     """None when the case is outside the model's input language"""
     ft = _ft()
     nm = case["nm"]
+    if "track_id" in nm or "lineage_id" in nm:
+        # the model carries these columns like any other; the real code carries them only when
+        # they are valid (validity check = geff.validate, opaque) — generators produce valid ids
+        exp = classify(case, src)
+        if exp["expect"] == "import" and not exp["ids_valid"]:
+            return None
     toks = [str(len(ft["spatial"]))] + [hexs(k) for k in ft["spatial"]]
     toks.append(str(len(nm)))
     for k, v in nm.items():
@@ -592,6 +615,84 @@ PARENT_NAMES = ["parent_id", "par", "mother", "parent"]
 CUSTOM_KEYS = ["score", "intensity", "cls", "quality", "marker", "note"]
 LIST_KEYS = ["vec", "feat2", "axes", "moments"]
 EXTRA_COLS = ["extra", "unused", "comment", "w0"]
+
+
+TRACK_COLS = ["track_id", "trk", "tracklet", "TrackID"]
+LINEAGE_COLS = ["lineage_id", "lin", "clone", "LineageID"]
+
+
+def _components(n: int, pairs) -> list[int]:
+    """union-find: component representative per index"""
+    rep = list(range(n))
+
+    def find(a):
+        while rep[a] != a:
+            rep[a] = rep[rep[a]]
+            a = rep[a]
+        return a
+
+    for a, b in pairs:
+        ra, rb = find(a), find(b)
+        if ra != rb:
+            rep[ra] = rb
+    return [find(i) for i in range(n)]
+
+
+def segments_and_lineages(n: int, links) -> tuple[list[int], list[int]]:
+    """links = (parent index, child index).  Tracklet = maximal unbranched segment (out-edges of
+    dividing nodes removed); lineage = weakly connected component."""
+    outdeg = [0] * n
+    for p_, _c in links:
+        outdeg[p_] += 1
+    seg = _components(n, [(p_, c) for p_, c in links if outdeg[p_] == 1])
+    lin = _components(n, links)
+    return seg, lin
+
+
+def gen_track_lineage(rng: random.Random, parent: list) -> tuple[list[int], list[int], bool]:
+    """VALID, NON-CANONICAL ids: random non-contiguous values, constant exactly on each segment /
+    component, distinct across them, not the assignment 1..k"""
+    n = len(parent)
+    links = [(p_, i) for i, p_ in enumerate(parent) if p_ is not None]
+    seg, lin = segments_and_lineages(n, links)
+
+    def label(comp):
+        reps = sorted(set(comp))
+        k = len(reps)
+        vals = rng.sample(range(1, 6 * k + 40), k)
+        if k and max(vals) <= k:
+            vals[rng.randrange(k)] = k + rng.randint(1, 30)
+        m = dict(zip(reps, vals))
+        return [m[c] for c in comp]
+
+    outdeg = [0] * n
+    for p_, _c in links:
+        outdeg[p_] += 1
+    return label(seg), label(lin), any(d >= 2 for d in outdeg)
+
+
+def ids_valid(nodes: list, edges: list, attrs: dict) -> bool:
+    """are the mapped track_id / lineage_id values of the source valid (the property only speaks
+    about them then; invalid ids are documented to be dropped with a warning and recomputed)"""
+    idx = {nid: i for i, nid in enumerate(nodes)}
+    links = [(idx[u], idx[v]) for u, v in edges]
+    seg, lin = segments_and_lineages(len(nodes), links)
+    for key, comp in (("track_id", seg), ("lineage_id", lin)):
+        if not nodes or key not in attrs[nodes[0]]:
+            continue
+        vals = []
+        for nid in nodes:
+            v = attrs[nid].get(key)
+            if v is None or v[0] != "s" or not re.fullmatch(r"n-?\d+", v[1]):
+                return False
+            vals.append(v[1])
+        by_comp: dict[int, str] = {}
+        for c, v in zip(comp, vals):
+            if by_comp.setdefault(c, v) != v:
+                return False
+        if len(set(by_comp.values())) != len(by_comp):
+            return False
+    return True
 
 
 def gen_forest(rng: random.Random, n: int) -> tuple[list[int | None], list[int]]:
@@ -729,6 +830,20 @@ def gen_table(rng: random.Random, kind: str, intensify: bool = False) -> dict:
         if k >= 2 and rng.random() < 0.1:
             names = names + [names[0]]  # a column used twice inside one list (allowed by the tests)
         nm[key] = names
+    # valid, non-canonical track / lineage ids (also under renamed column names)
+    tl = "none"
+    has_div = False
+    if rng.random() < (0.45 if not intensify else 0.7):
+        tids, lids, has_div = gen_track_lineage(rng, parent)
+        tl = rng.choice(["both", "both", "both", "both", "track-only", "lineage-only"])
+        if tl != "lineage-only":
+            cname = rng.choice(TRACK_COLS)
+            cols.append((cname, "int64", tids))
+            nm["track_id"] = cname
+        if tl != "track-only":
+            cname = rng.choice(LINEAGE_COLS)
+            cols.append((cname, "int64", lids))
+            nm["lineage_id"] = cname
     # two keys, one column / seg_id
     if rng.random() < 0.15 and len(nm) > 4:
         srckey = rng.choice([k for k in nm if k not in ("id", "parent_id", "pos", "time") and isinstance(nm[k], str)] or ["time"])
@@ -762,7 +877,7 @@ def gen_table(rng: random.Random, kind: str, intensify: bool = False) -> dict:
     case["_tags"] = {"ids": id_kind, "enc": enc, "renamed_ids": renamed_ids, "nd": nd, "n": n,
                      "links": sum(1 for p in parent if p is not None),
                      "list_keys": sum(1 for v in nm.values() if isinstance(v, list)) - 1,
-                     "malformation": "none"}
+                     "malformation": "none", "tl": tl, "division": has_div}
     return case
 
 
@@ -885,6 +1000,21 @@ def gen_geff(rng: random.Random, intensify: bool = False) -> dict:
         props.append("label")
         kinds["label"], values["label"] = "int", rng.sample(range(1, 5 * n + 5), n)
         nm["seg_id"] = "label"
+    tl = "none"
+    has_div = False
+    if rng.random() < (0.45 if not intensify else 0.7):
+        tids, lids, has_div = gen_track_lineage(rng, parent)
+        tl = rng.choice(["both", "both", "both", "both", "track-only", "lineage-only"])
+        if tl != "lineage-only":
+            cname = rng.choice(TRACK_COLS)
+            props.append(cname)
+            kinds[cname], values[cname] = "int", tids
+            nm["track_id"] = cname
+        if tl != "track-only":
+            cname = rng.choice(LINEAGE_COLS)
+            props.append(cname)
+            kinds[cname], values[cname] = "int", lids
+            nm["lineage_id"] = cname
     for c in rng.sample(EXTRA_COLS, rng.choice([0, 0, 1])):
         props.append(c)
         kinds[c], values[c] = "float", [_float(rng) for _ in range(n)]
@@ -901,7 +1031,7 @@ def gen_geff(rng: random.Random, intensify: bool = False) -> dict:
             "optional": optional, "nm": nm}
     case["_tags"] = {"ids": "int", "enc": "geff", "renamed_ids": False, "nd": nd, "n": n,
                      "links": len(edges), "list_keys": sum(1 for v in nm.values() if isinstance(v, list)) - (posmode == "list"),
-                     "malformation": "none", "posmode": posmode}
+                     "malformation": "none", "posmode": posmode, "tl": tl, "division": has_div}
     return case
 
 
@@ -1104,12 +1234,19 @@ def _shard(args) -> Result:
         if tags.get("posmode"):
             res.count(f"geff-pos:{tags['posmode']}")
         res.count("links", tags["links"])
+        res.count(f"track-lineage-columns:{tags.get('tl', 'none')}")
+        if tags.get("division"):
+            res.count("cases-with-division")
         res.count("real:" + (real["status"] if real["status"] != "err" else err_kind(real)))
         if src is not None:
             exp = classify(case, src)
             res.count("expect:" + exp["expect"] + ("" if exp["expect"] != "refuse" else ":" + exp["why"][0]))
             if exp["expect"] == "refuse" or (exp["expect"] == "import" and (exp["edges"] or tags["list_keys"])):
                 res.nontrivial.add(h(case))
+            if exp["expect"] == "import" and tags.get("tl", "none") != "none":
+                res.count("imported-with-valid-track/lineage-ids" if exp["ids_valid"] else "imported-with-INVALID-track/lineage-ids")
+                if tags.get("tl") == "both" and tags.get("division"):
+                    res.count("imported-with-both-ids-and-a-division")
         if len(res.samples) < 3 and tags["links"] and rng.random() < 0.03:
             res.samples.append(case)
         if real["status"] == "hang":
